@@ -4854,6 +4854,21 @@ let limit_ok = function
                    (lins_eqb e LStoreBudget)
                | _ :: _ -> false)))))
 
+(** val frame_ok : z -> z -> z -> bool **)
+
+let frame_ok temps pushes sub_bytes =
+  (&&)
+    ((&&)
+      ((&&) (Z.eqb (Z.modulo sub_bytes (Zpos (XO (XO (XO XH))))) Z0)
+        (Z.leb Z0 temps))
+      (Z.leb (Z.mul (Zpos (XO (XO (XO XH)))) temps) sub_bytes))
+    (Z.eqb
+      (Z.modulo
+        (Z.add
+          (Z.add (Zpos (XO (XO (XO XH))))
+            (Z.mul (Zpos (XO (XO (XO XH)))) pushes)) sub_bytes) (Zpos (XO (XO
+        (XO (XO XH)))))) Z0)
+
 type kind =
 | KPrintIr
 | KPrintBc
